@@ -114,6 +114,8 @@ func cmdCases(args []string) {
 		obs, err = cases.KeyCodec(w, raws)
 	case "lookup":
 		obs, err = cases.Lookup(raws)
+	case "flight":
+		obs, err = cases.Flight(raws)
 	case "proxyxform":
 		obs, err = cases.ProxyXform(w, raws)
 	default:
